@@ -114,13 +114,15 @@ Proof.
 Qed.
 
 (** ** string table *)
-Lemma init_strtab_good alim f sects idx : good (init_strtab alim f (N.of_nat (length sects)) sects idx).
+Lemma init_strtab_good alim f flen sects idx :
+  good (init_strtab alim f flen (N.of_nat (length sects)) sects idx).
 Proof.
   unfold init_strtab.
   destruct ((idx =? 0) || (N.of_nat (length sects) <=? idx)) eqn:E; [auto|].
   apply orb_false_iff in E. destruct E as [_ E]. apply N.leb_gt in E.
   destruct (nth_error sects (N.to_nat idx)) as [ps|] eqn:En.
   2:{ apply nth_error_None in En. lia. }
+  destruct (negb (extent_ok flen (sc_off ps) (sc_size ps))); [auto|].
   destruct (SIZE_MAX <=? sc_size ps); [auto|].
   destruct (negb (alloc alim (sc_size ps + 1))); [auto|].
   destruct (pread_cases f (sc_size ps) (sc_off ps)) as [[c [H _]]|[st [H ->]]]; rewrite H; auto.
@@ -133,7 +135,7 @@ Lemma read_shdrs_zero alim f be is64 entsz off : good (read_shdrs alim f be is64
 Proof. unfold read_shdrs. cbn. auto. Qed.
 
 (** ** init_elf *)
-Lemma init_elf_good alim f be is64 eh : clen eh = 64 -> good (init_elf alim f be is64 eh).
+Lemma init_elf_good alim f flen be is64 eh : clen eh = 64 -> good (init_elf alim f flen be is64 eh).
 Proof.
   intros Heh. unfold init_elf.
   unfold coff, cword.
@@ -151,9 +153,10 @@ Proof.
   all: apply good_bind; [repeat match goal with |- good (if ?b then _ else _) => destruct b end; auto|intros _ _].
   all: apply good_bind.
   all: try match goal with
-  | |- good (if negb (?n =? 0) && (?v <? ?sz) then _ else read_phdrs _ _ _ _ _ _ _) =>
+  | |- good (if negb (?n =? 0) && (?v <? ?sz) then _ else if ?c2 then _ else read_phdrs _ _ _ _ _ _ _) =>
     let E := fresh "E" in
     destruct (negb (n =? 0) && (v <? sz)) eqn:E; [solve [auto]|];
+    destruct c2; [solve [auto]|];
     apply andb_false_iff in E; destruct E as [E|E];
     [apply negb_false_iff, N.eqb_eq in E; subst; apply read_phdrs_zero
     |apply N.ltb_ge in E; apply read_phdrs_good; exact E]
@@ -161,9 +164,10 @@ Proof.
   all: intros segs _.
   all: apply good_bind.
   all: try match goal with
-  | |- good (if negb (?n =? 0) && (?v <? ?sz) then _ else read_shdrs _ _ _ _ _ _ _) =>
+  | |- good (if negb (?n =? 0) && (?v <? ?sz) then _ else if ?c2 then _ else read_shdrs _ _ _ _ _ _ _) =>
     let E := fresh "E" in
     destruct (negb (n =? 0) && (v <? sz)) eqn:E; [solve [auto]|];
+    destruct c2; [solve [auto]|];
     apply andb_false_iff in E; destruct E as [E|E];
     [apply negb_false_iff, N.eqb_eq in E; subst; apply read_shdrs_zero
     |apply N.ltb_ge in E; apply read_shdrs_good; exact E]
@@ -171,9 +175,10 @@ Proof.
   all: intros sects Hs.
   all: assert (Hlen : N.of_nat (length sects) = shnum) by
     (match type of Hs with
-     | (if negb (?n =? 0) && (?v <? ?sz) then _ else read_shdrs ?a ?b ?c ?d ?e ?g ?h) = Ok _ =>
+     | (if negb (?n =? 0) && (?v <? ?sz) then _ else if ?c2 then _ else read_shdrs ?a ?b ?c ?d ?e ?g ?h) = Ok _ =>
        let E := fresh "E" in
        destruct (negb (n =? 0) && (v <? sz)) eqn:E; [discriminate|];
+       destruct c2; [discriminate|];
        apply andb_false_iff in E; destruct E as [E|E];
        [apply negb_false_iff, N.eqb_eq in E; subst; unfold read_shdrs in Hs; cbn in Hs;
         injection Hs as <-; reflexivity
@@ -184,7 +189,7 @@ Proof.
 Qed.
 
 (** ** do_probe, the note walk, elf_probe *)
-Lemma do_probe_good alim f eh : clen eh = 64 -> good (do_probe alim f eh).
+Lemma do_probe_good alim f flen eh : clen eh = 64 -> good (do_probe alim f flen eh).
 Proof.
   intros Heh. unfold do_probe.
   destruct (cbytes_in eh 0 4) as [mag Hm]; [lia|]. rewrite Hm. cbn [bind].
@@ -222,3 +227,62 @@ Theorem elf_probe_status : forall alim f flen st stg,
   elf_probe alim f flen = Err st stg ->
   is_error st = true /\ (st = KNOPROBE -> stg = StSignature).
 Proof. intros alim f flen st stg H. exact (proj2 (proj2 (elf_probe_good alim f flen)) st stg H). Qed.
+
+(** ** the table loops are linear in the file length (fix 94) *)
+Lemma hdr_table_ok_bound flen off num entsz hdrsz :
+  hdrsz <= entsz -> num <> 0 -> hdr_table_ok flen off num entsz hdrsz = true -> num * hdrsz <= flen.
+Proof.
+  intros Hsz Hn H. unfold hdr_table_ok, extent_ok in H.
+  apply andb_true_iff in H. destruct H as [_ H].
+  apply andb_true_iff in H. destruct H as [_ H]. apply N.leb_le in H.
+  assert (Hm : (num - 1) * hdrsz <= (num - 1) * entsz) by (apply N.mul_le_mono_l; exact Hsz).
+  replace (num * hdrsz) with ((num - 1) * hdrsz + hdrsz).
+  - lia.
+  - replace num with (num - 1 + 1) at 2 by lia. lia.
+Qed.
+
+Ltac inv_bind H :=
+  match type of H with
+  | bind ?r _ = Ok _ =>
+    let a := fresh "a" in let E := fresh "E" in
+    destruct r as [a| | | | | |] eqn:E; cbn [bind] in H; try discriminate
+  end.
+
+Theorem init_elf_counts : forall alim f flen be is64 eh t,
+  init_elf alim f flen be is64 eh = Ok t ->
+  et_phnum t * sizeof_phdr is64 <= flen /\ et_shnum t * sizeof_shdr is64 <= flen.
+Proof.
+  intros alim f flen be is64 eh t H. unfold init_elf in H.
+  repeat inv_bind H.
+  destruct a7 as [shnum phnum].
+  repeat inv_bind H.
+  injection H as <-. cbn [et_phnum et_shnum].
+  split.
+  - match type of E10 with (if ?c1 then _ else if ?c2 then _ else _) = _ =>
+      destruct c1 eqn:C1; [discriminate|]; destruct c2 eqn:C2; [discriminate|] end.
+    destruct (phnum =? 0) eqn:Ez; [apply N.eqb_eq in Ez; subst; lia|].
+    cbn [negb andb] in C1, C2. apply N.ltb_ge in C1. apply negb_false_iff in C2.
+    apply N.eqb_neq in Ez. eapply hdr_table_ok_bound; eassumption.
+  - match type of E11 with (if ?c1 then _ else if ?c2 then _ else _) = _ =>
+      destruct c1 eqn:C1; [discriminate|]; destruct c2 eqn:C2; [discriminate|] end.
+    destruct (shnum =? 0) eqn:Ez; [apply N.eqb_eq in Ez; subst; lia|].
+    cbn [negb andb] in C1, C2. apply N.ltb_ge in C1. apply negb_false_iff in C2.
+    apply N.eqb_neq in Ez. eapply hdr_table_ok_bound; eassumption.
+Qed.
+
+Theorem elf_probe_counts : forall alim f flen r,
+  elf_probe alim f flen = Ok r ->
+  et_phnum (er_tables r) * 32 <= flen /\ et_shnum (er_tables r) * 40 <= flen.
+Proof.
+  intros alim f flen r H. unfold elf_probe in H.
+  inv_bind H. inv_bind H.
+  destruct (_ && _); [discriminate|]. inv_bind H. injection H as <-. cbn [er_tables].
+  unfold do_probe in E0.
+  repeat inv_bind E0.
+  destruct (negb _); [discriminate|].
+  repeat inv_bind E0.
+  destruct (_ && _ && _).
+  - destruct (init_elf_counts _ _ _ _ _ _ _ E0) as [H1 H2]. cbn [sizeof_phdr sizeof_shdr] in *. lia.
+  - destruct (_ && _ && _); [|discriminate].
+    destruct (init_elf_counts _ _ _ _ _ _ _ E0) as [H1 H2]. cbn [sizeof_phdr sizeof_shdr] in *. lia.
+Qed.
